@@ -171,6 +171,13 @@ def _r2(run, prog, eff):
         ci = prog.cls(q)
         for b in spec['builders']:
             fn = prog.method(ci, b)
+            if fn is not None:
+                # a detach / attach block moved into a private method is read where it is called
+                from ..inline import flatten, class_lookup
+                try:
+                    fn = flatten(fn, class_lookup(prog, ci))
+                except Exception:
+                    pass
             rets = [r for r in ast.walk(fn) if isinstance(r, ast.Return) and r.value is None]
             assigns_material = [st for st in ast.walk(fn) if isinstance(st, ast.Assign) and norm(st.targets[0]).endswith('.material')]
             if not rets or not assigns_material:
